@@ -20,15 +20,36 @@
 // fire in their original relative order, and a Replace'd callback keeps its position
 // relative to every other callback (differential run without the Replace steps).
 // A sequence that ends the process (unbounded recursion in the sorter) is attributed by
-// the core runner to the case (signature "fatal").
+// the core runner to the case (signature "fatal"); the literal sequence is left at the
+// head of the child's output file, so it shows up in the violation detail.
+//
+// Violation signatures (suffix "+star" when the sequence uses "*" anywhere):
+//
+//	fatal                         the process ended while the sequence was applied/executed
+//	panic                         recovered panic
+//	not-once:missing / :repeated  a live callback fired 0 / >1 times in one execution
+//	removed-ran                   a removed callback fired
+//	stale-handler                 a replaced handler fired instead of the replacement
+//	side:before / side:after      a Before/After(name) constraint is broken although an
+//	                              order satisfying all requested constraints exists
+//	side:star                     same for Before/After("*") (weak reading, see Assumptions)
+//	contradiction-accepted:named  the named constraints (+ built-in order) cannot all hold,
+//	                              no call returned an error, a constraint is broken
+//	contradiction-accepted:star   satisfiable without the "*" constraints, not with them
+//	builtin-order                 built-ins fired in another relative order
+//	replace-position              a Replace'd callback changed sides relative to another one
 package c17
 
 import (
+	"context"
 	"fmt"
 	"os"
+	"os/exec"
 	"runtime/debug"
 	"sort"
+	"strconv"
 	"strings"
+	"time"
 
 	"gorm.io/gorm"
 
@@ -969,6 +990,86 @@ func announce(c *core.Ctx, what string, lines []string) {
 	}
 }
 
+// risky reports whether at some prefix of the sequence the Before/After constraints
+// among the existing user callbacks form a cycle. Such sequences are the ones seen to
+// send the sorter into unbounded recursion, so they are first executed in a disposable
+// process (probe): a process-fatal error is then recorded by this engine with the
+// literal sequence, and the batch child survives with all its observations. Sequences
+// that are not predicted but end the process anyway are still attributed by the runner.
+func risky(p *pipeline, seq []step) bool {
+	for n := 1; n <= len(seq); n++ {
+		m := model(p, seq[:n])
+		var reqs []req
+		for id, ns := range m {
+			if id < userBase || id >= idNX || !ns.live || ns.weak {
+				continue
+			}
+			// targets: existing user callbacks, and names that exist only through a
+			// Replace (pristine built-ins are settled first and were never seen to recurse)
+			tgt := func(t int) bool {
+				return t != idStar && t != none && m[t] != nil && m[t].live && (t >= userBase || m[t].weak)
+			}
+			if t := ns.bef; tgt(t) {
+				reqs = append(reqs, req{first: id, second: t})
+			}
+			if t := ns.aft; tgt(t) {
+				reqs = append(reqs, req{first: t, second: id})
+			}
+		}
+		if !satisfiable(reqs, true) {
+			return true
+		}
+	}
+	return false
+}
+
+const probeEnv = "C17_PROBE"
+
+// probe re-executes this case in a process of its own and reports whether that process
+// ended with a Go runtime fatal error.
+func probe(c *core.Ctx) (died bool, head string, err error) {
+	exe, err := os.Executable()
+	if err != nil {
+		return false, "", err
+	}
+	ctx, cancel := context.WithTimeout(context.Background(), 120*time.Second)
+	defer cancel()
+	cmd := exec.CommandContext(ctx, exe, "-case", strconv.Itoa(c.Case), "-tier", c.Tier, "-seed", strconv.FormatUint(c.Seed, 10))
+	cmd.Env = append(os.Environ(), probeEnv+"=1", "GOTRACEBACK=single")
+	out, runErr := cmd.CombinedOutput()
+	text := string(out)
+	for _, l := range strings.Split(text, "\n") {
+		if d, ok := strings.CutPrefix(l, "C17-PROBE-DIR "); ok && strings.Contains(d, "C17.replay.") {
+			os.RemoveAll(strings.TrimSpace(d)) // the dying process could not remove its scratch dir
+		}
+	}
+	if ctx.Err() != nil {
+		return false, "", fmt.Errorf("probe timed out")
+	}
+	code := 0
+	if ee, ok := runErr.(*exec.ExitError); ok {
+		code = ee.ExitCode()
+	} else if runErr != nil {
+		return false, "", runErr
+	}
+	if code == 0 || code == 1 {
+		return false, "", nil
+	}
+	first := ""
+	if i := strings.Index(text, "fatal error:"); i >= 0 {
+		text = text[i:]
+		first, _, _ = strings.Cut(text, "\n")
+	}
+	// the frames of the goroutine that ran the sequence say where the recursion is
+	if i := strings.Index(text, "\ngoroutine "); i >= 0 {
+		text = text[i+1:]
+	}
+	if len(text) > 1200 {
+		text = text[:1200]
+	}
+	return true, fmt.Sprintf("exit %d: %s | %s", code, first, text), nil
+}
+
 func caseSeq(c *core.Ctx) (pl int, seq []step, origin string) {
 	idx := c.Case
 	for _, b := range blocks(c.Tier) {
@@ -998,6 +1099,23 @@ func run(c *core.Ctx) {
 	c.Inc("pipeline_" + p.name)
 	c.Inc(fmt.Sprintf("len_%d", len(seq)))
 	c.Inc("origin_" + strings.Fields(origin)[0])
+
+	if os.Getenv(probeEnv) != "" {
+		fmt.Println("C17-PROBE-DIR " + c.Dir)
+	} else if risky(p, seq) {
+		c.Inc("probed_in_own_process")
+		died, head, err := probe(c)
+		if err != nil {
+			c.Inconclusive("probe: " + err.Error())
+			return
+		}
+		if died {
+			c.Inc("fatal_in_probe")
+			c.Violation("fatal", map[string]interface{}{"pipeline": p.name, "sequence": desc, "origin": origin,
+				"observed": "the process executing this sequence ended with a runtime fatal error (no error was returned, no pipeline ran)", "output_head": head})
+			return
+		}
+	}
 
 	report := func(mode string, probs []problem, trace []ev, extra map[string]interface{}) {
 		byClass := map[string][]string{}
@@ -1196,7 +1314,7 @@ var Engine = &core.Engine{
 	Rule: "one case = one registration sequence on one of the six pipelines (Create, Query, Update, Delete, Row, Raw), applied to a fresh gorm handle and followed by a real execution of the pipeline against SQLite, twice: with the built-ins wrapped by recording functions (B) and on the pristine registry with the built-ins seen through driver events and model hooks (A). " +
 		"Calls: Register, Before(t).Register, After(t).Register, Before(t).After(t').Register, Replace, Remove; registered names: canonical fresh names or names removed earlier; targets t: every built-in of the pipeline, every user name introduced so far, the next name to be introduced (forward reference / unknown), '*'; Replace/Remove names: built-ins, user names, an unknown name. " +
 		"Enumerated completely: all sequences of length 0..2 on every pipeline (quick and thorough); thorough adds all sequences of length 3 with the built-in alphabet reduced to {first, main, last} built-in on Create/Update/Delete (full on Query/Row/Raw). Then random sequences of length 3..8 over 5 user names (forward and removed names as targets, unknown name, '*'): 5 000 quick / 300 000 thorough. " +
-		"distinct = (pipeline, literal sequence); non-trivial = no call returned an error, the pipeline ran, and at least one Before/After constraint with a running target, one removal or one replacement was checked against the firing order",
+		"Ordering violations are classified by whether an order satisfying everything requested exists (side:*) or not (contradiction-accepted:*: the statement then demands an error return). distinct = (pipeline, literal sequence); non-trivial = no call returned an error, the pipeline ran, and at least one Before/After constraint with a running target, one removal or one replacement was checked against the firing order",
 	Assumptions: []string{
 		"a registration under a name that exists at that moment (duplicate Register without Replace, including built-in names) is not generated: the statement only speaks of Replace for an existing name",
 		"a callback never names itself in Before/After; Replace and Remove never carry Before/After; Match is not used",
@@ -1205,7 +1323,7 @@ var Engine = &core.Engine{
 		"the sequence stops at the first call that returns an error (accepted outcome); the pipeline is then not executed",
 		"position of a Replace'd callback = same side of every other callback as in a reference run of the sequence without its Replace calls (skipped when the reference run returns an error)",
 		"mode A: gorm:setup_reflect_value has no visible effect and is only covered by mode B; when the sequence replaces or removes a built-in, the effects of the other built-ins are required at most once (their visibility may depend on the missing one)",
-		"a sequence whose execution ends the process is reported by the runner with signature 'fatal' (neither an error return nor a working pipeline)",
+		"a sequence whose execution ends the process is a violation with signature 'fatal' (neither an error return nor a working pipeline): sequences whose constraints among existing user callbacks form a cycle are first executed in a process of their own (probe) so that the batch survives; any other process-fatal case is attributed by the runner's per-case log",
 	},
 	Cases:         func(tier string) int { return exhaustiveCases(tier) + randomCases(tier) },
 	Batch:         func(string) int { return 256 },
